@@ -2,7 +2,7 @@
    non-vacuity example for the completeness theorem. *)
 From Coq Require Import List Bool String.
 From TS Require Import Model.Str Model.Outcome Model.Unicode Model.Syntax Model.Attrs Model.Types Model.Parse
-                       Model.Reconcile Model.Collect Model.Lang.Common Model.MultiFile.
+                       Model.Reconcile Model.Collect Model.Lang.Common Model.Rename Model.MultiFile.
 From TS Require Import Spec.C11Spec Spec.C14Spec.
 From TS Require Import Proofs.C14 Proofs.C14Front Proofs.C14Main Proofs.C14Imports.
 Import ListNotations.
@@ -125,3 +125,19 @@ Theorem same_name_refuted : exists arrivals pd v,
   In v (judge_crate (c14_infos uc_exec [] ws_same_name) [] MY (scoped_pairs (crate_imports (@rev _) (multi_crates idl arrivals) MY pd))) /\
   rv_known v = Some "C14-same-name" /\ rv_imported v = false.
 Proof. from_eval (proj2 same_name_eval). Qed.
+
+(* k/src/lib.rs: #[typeshare] struct K1 { x: u8 }  #[typeshare] pub const MyConst: u32 = 1;
+   my-crate/src/lib.rs: use k::*; use k::K1;  -  the effective glob imports the const under its generated name,
+   while TypeScript defines it as MY_CONST *)
+Definition w_k : ws_entry := w_entry (lit "k") (w_file
+  [w_struct [] (lit "K1") [w_fld (lit "x") (w_ty (lit "u8"))];
+   IConst [w_ts] (lit "MyConst") (w_ty (lit "u32")) {| ce_first_lit := Some (CInt (Some (Zpos xH))); ce_plain := Some (Zpos xH) |}]
+  [[lit "typeshare"]; [lit "u8"]; [lit "u32"]]).
+Definition ws_glob_const : list ws_entry := [w_k; w_b [w_glob (lit "k"); w_use (lit "k") (lit "K1")] (lit "K1")].
+
+Lemma glob_const_refuted :
+  exists verdicts,
+    w_run idl idl ws_glob_const MY = Some ([(lit "k", lit "K1"); (lit "k", lit "MyConst")], verdicts) /\
+    const_imports (c14_infos uc_exec [] ws_glob_const) [(lit "k", lit "K1"); (lit "k", lit "MyConst")] = [(lit "k", lit "MyConst")] /\
+    str_to_uppercase uc_exec (to_snake_case uc_exec (lit "MyConst")) = lit "MY_CONST".
+Proof. eexists. split; [vm_compute; reflexivity|]. split; vm_compute; reflexivity. Qed.
